@@ -12,7 +12,7 @@ import (
 
 func init() {
 	register("C09", runC09, propMeta{
-		Explanation: "Decides the recover discipline and the absence of engine-level panics and unbounded loops, for all rule texts and injected data: (R1) RuleEntity.Execute — the only door from the engine into the interpreter — and the four call/assignment evaluators each register, before anything that can panic, a deferred literal that calls recover() and on a non-nil result stores a newly created error into the function's error result (the rule entry also clears the returned-flag); (R2) every goroutine literal of the product calls nothing but panic-safe workers, addResult, fmt.Sprintf, errors.New, append, mutex and WaitGroup operations, and contains no indexing, slicing, unchecked type assertion or division, so a goroutine cannot die with an unrecovered panic; (R3) every Evaluate/Execute of the interpreter is called only from package base, except RuleEntity.Execute; (R4) in the engine a value looked up with comma-ok is never used on the miss edge, every constant or len-1 index into a rule list is dominated by a length test that implies it is in range, counted indexes stay below the len they are compared with, the N-M windows are dominated by their parameter checks, and the nil-able pool master is guarded (C16-Q1); (R5) loop inventory over base, core, context, iter, engine, builder and tool: every loop is a range loop, a counted loop with a +1 counter compared to a bound, the iterator loop whose Key() advances the cursor by one and whose Next() is cursor < length, the ForStmt loop in which every iteration increments a counter and returns an error beyond maxExecuteNum, or one of two named loops (getGengine's wait loop — C17; tool.BinarySearch, whose every iteration returns or moves low/high past mid); (R6) WaitGroup counts agree with the goroutines started (A4) on one snapshot (C07-U1), so Wait cannot hang or panic; (R7) collected errors always surface (every execute method); (R8) the lock-order graph of the product is acyclic and no pool lock is held while rules run. (R9) a mutex locked without a covering deferred unlock is released on every return and is not held across anything that can fault on rule-controlled data (a call into reflect, through an interface or a function value, an explicit panic, an unchecked type assertion, directly or in module callees), so a recovered fault cannot leave it locked. (R10) in MapVar.Evaluate reflect.Zero stands in only for the absent key of a map, never for an index outside a slice or array. Not decided: termination of injected host functions (assumed by the property); Go-fatal conditions recover cannot catch (stack exhaustion, concurrent map writes on host data). (R11) the value of an if / else-if / for condition is tested through reflect's Bool() or under a kind test whose other edge returns an error: a non-boolean condition is a fault, never 'false'. (R12) ReturnStatement.Evaluate says 'returned' only where the error of its expression is known to be nil. (R13) in every function that calls recover(), each way on from a non-nil recovered value stores a new error into an error variable of the enclosing function. The bound Next() compares the cursor with is a number or key list stored in the iterator when NewInter made it and stored by nothing else, so a body that grows the ranged collection cannot keep a forRange running. (R14) a function that calls recover() cannot fault itself: its slice expressions start at nothing, a non-negative constant, len() or a value tested against a lower bound; it holds no unchecked assertion, division or panic.",
+		Explanation: "Decides the recover discipline and the absence of engine-level panics and unbounded loops, for all rule texts and injected data: (R1) RuleEntity.Execute — the only door from the engine into the interpreter — and the four call/assignment evaluators each register, before anything that can panic, a deferred literal that calls recover() and on a non-nil result stores a newly created error into the function's error result (the rule entry also clears the returned-flag); (R2) every goroutine literal of the product calls nothing but panic-safe workers, addResult, fmt.Sprintf, errors.New, append, mutex and WaitGroup operations, and contains no indexing, slicing, unchecked type assertion or division, so a goroutine cannot die with an unrecovered panic; (R3) every Evaluate/Execute of the interpreter is called only from package base, except RuleEntity.Execute; (R4) in the engine a value looked up with comma-ok is never used on the miss edge, every constant or len-1 index into a rule list is dominated by a length test that implies it is in range, counted indexes stay below the len they are compared with, the N-M windows are dominated by their parameter checks, and the nil-able pool master is guarded (C16-Q1); (R5) loop inventory over base, core, context, iter, engine, builder and tool: every loop is a range loop, a counted loop with a +1 counter compared to a bound, the iterator loop whose Key() advances the cursor by one and whose Next() is cursor < length, the ForStmt loop in which every iteration increments a counter and returns an error beyond maxExecuteNum, or one of two named loops (getGengine's wait loop — C17; tool.BinarySearch, whose every iteration returns or moves low/high past mid); (R6) WaitGroup counts agree with the goroutines started (A4) on one snapshot (C07-U1), so Wait cannot hang or panic; (R7) collected errors always surface (every execute method); (R8) the lock-order graph of the product is acyclic and no pool lock is held while rules run. (R9) a mutex locked without a covering deferred unlock is released on every return and is not held across anything that can fault on rule-controlled data (a call into reflect, through an interface or a function value, an explicit panic, an unchecked type assertion, directly or in module callees), so a recovered fault cannot leave it locked. (R10) in MapVar.Evaluate reflect.Zero stands in only for the absent key of a map, never for an index outside a slice or array. Not decided: termination of injected host functions (assumed by the property); Go-fatal conditions recover cannot catch (stack exhaustion, concurrent map writes on host data). (R11) the value of an if / else-if / for condition is tested through reflect's Bool() or under a kind test whose other edge returns an error: a non-boolean condition is a fault, never 'false'. (R12) ReturnStatement.Evaluate says 'returned' only where the error of its expression is known to be nil. (R13) in every function that calls recover(), each way on from a non-nil recovered value stores a new error into an error variable of the enclosing function. The bound Next() compares the cursor with is a number or key list stored in the iterator when NewInter made it and stored by nothing else, so a body that grows the ranged collection cannot keep a forRange running. (R14) a function that calls recover() cannot fault itself: its slice expressions start at nothing, a non-negative constant, len() or a value tested against a lower bound; it holds no unchecked assertion, division or panic. (R15) every pool method returns the error of its engine call: a fault surfaces through the pool as well.",
 		Assumptions: []string{"injected functions terminate", "recover() catches every panic raised by reflect and by rule evaluation"},
 		Trusted:     commonTrusted,
 	})
@@ -338,6 +338,9 @@ func runC09(c *Ctx) {
 	// an error (a type switch without default) turns the others into success
 	c.ruleRecoverAlwaysReports("R13-a-recovered-panic-is-reported")
 	c.ruleRecoverHandlersCannotFault("R14-recover-handlers-cannot-fault")
+	// a fault surfaces "as a non-nil error returned by the call" through the pool as well: every pool
+	// method returns the error of its engine call (the own-error slot of the request life cycle, C06-P2)
+	c.armPoolError("R15-pool-reports-the-fault", func(m string) bool { return true }, 20)
 	c.Min("R9-lock-released-when-faulting", 20)
 	// R10
 	c.ruleNoZeroForAFault("R10-no-zero-for-a-fault")
@@ -848,75 +851,7 @@ func (c *Ctx) ruleLockOrder(rule string) {
 // interface or a function value (injected code), no explicit panic and no unchecked type assertion --
 // directly or inside module callees. (Runtime faults of plain Go operations are not covered.)
 func (c *Ctx) ruleLockPanicSafe(rule string) {
-	memo := map[*ssa.Function]string{}
-	var faulty func(f *ssa.Function, depth int) string
-	instrFaults := func(in ssa.Instruction, depth int) string {
-		switch t := in.(type) {
-		case *ssa.Panic:
-			return "an explicit panic"
-		case *ssa.TypeAssert:
-			if !t.CommaOk && c.Index(in.Parent()).Origin(t) == ssa.Value(t) {
-				return "an unchecked type assertion"
-			}
-			return ""
-		case *ssa.Go:
-			return ""
-		}
-		cc := callCommon(in)
-		if cc == nil {
-			return ""
-		}
-		if cc.IsInvoke() {
-			if isErrorType(cc.Value.Type()) {
-				return ""
-			}
-			return "a call through an interface (" + cc.Method.Name() + ")"
-		}
-		if _, isB := cc.Value.(*ssa.Builtin); isB {
-			return ""
-		}
-		cal := cc.StaticCallee()
-		if cal == nil {
-			return "a call through a function value"
-		}
-		if cal.Pkg == nil && cal.Signature.Recv() == nil && cal.Synthetic == "" {
-			return ""
-		}
-		path := ""
-		if cal.Pkg != nil {
-			path = cal.Pkg.Pkg.Path()
-		} else if r := cal.Signature.Recv(); r != nil {
-			if n, ok := derefType(r.Type()).(*types.Named); ok && n.Obj().Pkg() != nil {
-				path = n.Obj().Pkg().Path()
-			}
-		}
-		switch {
-		case path == "reflect":
-			return "a call into reflect (" + cal.Name() + ")"
-		case strings.HasPrefix(path, modPath):
-			if depth > 6 {
-				return "a call chain too deep to follow (" + fnName(cal) + ")"
-			}
-			if why := faulty(cal, depth+1); why != "" {
-				return fnName(cal) + ", which contains " + why
-			}
-		}
-		return ""
-	}
-	faulty = func(f *ssa.Function, depth int) string {
-		if why, ok := memo[f]; ok {
-			return why
-		}
-		memo[f] = ""
-		why := ""
-		eachInstr(f, func(in ssa.Instruction) {
-			if why == "" {
-				why = instrFaults(in, depth)
-			}
-		})
-		memo[f] = why
-		return why
-	}
+	instrFaults := c.faultFinder(nil)
 	n := 0
 	for _, f := range c.AllFns {
 		if f.Pkg == nil || f.Pkg.Pkg.Path() == pParser || !strings.HasPrefix(f.Pkg.Pkg.Path(), modPath) {
@@ -1179,4 +1114,84 @@ func (c *Ctx) ruleRecoverHandlersCannotFault(rule string) {
 		c.Check(rule, fnName(rootOf(f))+"#"+fnName(f), bad == "", orPos(badPos, f.Pos()), "the function that recovers contains %s: the panic it recovered is gone by then, this one escapes", orStr(bad, "nothing that can fault"))
 	}
 	c.Min(rule, 4)
+}
+
+// faultFinder returns a function that says why an instruction can fault on rule-controlled data: a
+// call into reflect (but for the total functions named in harmless), a call through an interface or a
+// function value, an explicit panic, an unchecked type assertion -- directly or inside module callees.
+func (c *Ctx) faultFinder(harmless map[string]bool) func(in ssa.Instruction, depth int) string {
+	memo := map[*ssa.Function]string{}
+	var faulty func(f *ssa.Function, depth int) string
+	var instrFaults func(in ssa.Instruction, depth int) string
+	instrFaults = func(in ssa.Instruction, depth int) string {
+		switch t := in.(type) {
+		case *ssa.Panic:
+			return "an explicit panic"
+		case *ssa.TypeAssert:
+			if !t.CommaOk && c.Index(in.Parent()).Origin(t) == ssa.Value(t) {
+				return "an unchecked type assertion"
+			}
+			return ""
+		case *ssa.Go:
+			return ""
+		}
+		cc := callCommon(in)
+		if cc == nil {
+			return ""
+		}
+		if cc.IsInvoke() {
+			if isErrorType(cc.Value.Type()) {
+				return ""
+			}
+			return "a call through an interface (" + cc.Method.Name() + ")"
+		}
+		if _, isB := cc.Value.(*ssa.Builtin); isB {
+			return ""
+		}
+		cal := cc.StaticCallee()
+		if cal == nil {
+			return "a call through a function value"
+		}
+		if cal.Pkg == nil && cal.Signature.Recv() == nil && cal.Synthetic == "" {
+			return ""
+		}
+		path := ""
+		if cal.Pkg != nil {
+			path = cal.Pkg.Pkg.Path()
+		} else if r := cal.Signature.Recv(); r != nil {
+			if n, ok := derefType(r.Type()).(*types.Named); ok && n.Obj().Pkg() != nil {
+				path = n.Obj().Pkg().Path()
+			}
+		}
+		switch {
+		case path == "reflect":
+			if harmless[cal.Name()] {
+				return ""
+			}
+			return "a call into reflect (" + cal.Name() + ")"
+		case strings.HasPrefix(path, modPath):
+			if depth > 6 {
+				return "a call chain too deep to follow (" + fnName(cal) + ")"
+			}
+			if why := faulty(cal, depth+1); why != "" {
+				return fnName(cal) + ", which contains " + why
+			}
+		}
+		return ""
+	}
+	faulty = func(f *ssa.Function, depth int) string {
+		if why, ok := memo[f]; ok {
+			return why
+		}
+		memo[f] = ""
+		why := ""
+		eachInstr(f, func(in ssa.Instruction) {
+			if why == "" {
+				why = instrFaults(in, depth)
+			}
+		})
+		memo[f] = why
+		return why
+	}
+	return instrFaults
 }
